@@ -143,6 +143,8 @@ class Amb:
             if p == state:
                 break
             cs = nfa.ch[p][0]
+            if not cs:      # a character outside the bounded alphabet: no step through this position
+                continue
             ch = self._pick_char(cs)
             for t in self.follow[p]:
                 if t not in prev:
